@@ -14,7 +14,7 @@ from hypothesis import strategies as st
 from pv.core import Sub, Violation, call_fuel, check, short, OutOfFuel
 
 ASSUMPTIONS = [
-    'second resolution (rrule discards microseconds); start dates 1950-2050; spans up to ~3 years but at most ~400 list elements',
+    'second resolution for string / int bumps (rrule discards microseconds), millisecond steps for timedelta bumps (a plain loop); start dates 1950-2050; spans up to ~3 years but at most ~400 list elements',
     'endpoints a whole number of days apart for int / business-day / d / w bumps; midnight and day-of-month <= 28 for m/q/y parts; intraday endpoints with timedelta and h/n/s bumps',
     'a zero business-day bump ("0b") is outside the claim (it lists every weekday; the statement only speaks of bumps pointing away from t1)',
     'compound tenors: all parts of one sign, or a dominant first part (>= 4 weeks) followed by a small correction (<= 7 days) so the step is strictly monotone; '
@@ -100,7 +100,7 @@ _ord = st.integers(datetime.date(1950, 1, 1).toordinal(), datetime.date(2050, 1,
 
 @st.composite
 def _case(draw):
-    kind = draw(st.sampled_from(['int', 'int', 'td_days', 'td_intraday', 'd', 'w', 'b', 'b', 'month', 'month', 'hns', 'compound', 'compound', 'equal'] * 3 + ['long']))
+    kind = draw(st.sampled_from(['int', 'int', 'td_days', 'td_intraday', 'td_subsecond', 'd', 'w', 'b', 'b', 'month', 'month', 'hns', 'compound', 'compound', 'equal'] * 3 + ['long']))
     o = draw(_ord)
     right = draw(st.sampled_from([True] * 7 + [False]))        # bump points towards t1?
     back = draw(st.booleans())                                     # t1 before t0?
@@ -128,6 +128,11 @@ def _case(draw):
         nel = draw(st.integers(0, 60)) + draw(st.sampled_from([0, 3]))
         span = max(1, nel * max(n, 1) + draw(st.integers(0, max(n - 1, 0))))
         spec.update(t0=[o, draw(st.sampled_from([0, 0, 7200]))], span_s=sgn * span * 86400, bump=['td', bs * n * 86400])
+    elif kind == 'td_subsecond':      # the timedelta branch is a plain loop: sub-second steps are valid there (milliseconds in the spec)
+        step = draw(st.sampled_from([100, 250, 1100, 1, 333, 7]))
+        nel = draw(st.integers(0, 40))
+        span = max(nel * step + draw(st.sampled_from([0, 0, 0, step // 2])), 1)
+        spec.update(t0=[o, draw(st.integers(0, 86399))], span_s=sgn * span / 1000.0, bump=['tdms', bs * step], route='drange')
     elif kind == 'td_intraday':
         step = draw(st.sampled_from([1, 30, 60, 900, 3600, 5400, 21600, 86400 + 3600])) if draw(st.integers(0, 6)) else 0
         nel = draw(st.integers(0, 80))
@@ -142,7 +147,7 @@ def _case(draw):
     elif kind == 'b':
         n = draw(st.integers(1, 7))
         span = draw(st.integers(1, 250))
-        spec.update(t0=[o, 0], span_s=sgn * span * 86400, bump='%s%ib' % ('-' if bs < 0 else '', n))
+        spec.update(t0=[o, 0], span_s=sgn * span * 86400, bump='%s%ib' % ('-' if bs < 0 else draw(st.sampled_from(['', '', '+'])), n))
         spec['route'] = 'drange'
     elif kind == 'month':
         unit = draw(st.sampled_from(['m', 'm', 'q', 'y']))
@@ -182,14 +187,14 @@ def _case(draw):
 
 def _bump_obj(b):
     if isinstance(b, list):
-        return datetime.timedelta(seconds=b[1])
+        return datetime.timedelta(milliseconds=b[1]) if b[0] == 'tdms' else datetime.timedelta(seconds=b[1])
     return b
 
 
 def run_drange(spec):
     from pyg_base import drange, Calendar
     t0 = mkdt(*spec['t0'])
-    t1 = t0 + datetime.timedelta(seconds=spec['span_s'])
+    t1 = t0 + datetime.timedelta(milliseconds=round(spec['span_s'] * 1000))
     bump = _bump_obj(spec['bump'])
     kind = spec['kind']
     # ---- expected
@@ -208,7 +213,7 @@ def run_drange(spec):
         exp = ref_iterate(t0, t1, lambda t: t + bump * DAY)
     else:
         exp = ref_iterate(t0, t1, lambda t: t + bump)
-    limit = 60000 + 400 * (len(exp) if exp else 0) + (3000 * abs(spec['span_s']) // 86400 if kind == 'b' or isinstance(bump, int) else 0)
+    limit = 60000 + 400 * (len(exp) if exp else 0) + (3000 * int(abs(spec['span_s'])) // 86400 if kind == 'b' or isinstance(bump, int) else 0)
     what = 'drange(%s, %s, %r)' % (t0, t1, bump)
     f = drange if spec['route'] == 'drange' else Calendar('pv').drange
     if spec['route'] != 'drange':
@@ -254,7 +259,7 @@ def run_drange(spec):
         cls.append('t1<t0')
     if exp is not None and spec['back'] and n >= 3:
         cls.append('negative_direction_3+')
-    nt = exp is None or (n >= 3 and (spec['back'] or kind in ('compound', 'td_intraday', 'hns') or (isinstance(spec['bump'], int) and abs(spec['bump']) > 1) or kind in ('b', 'month')))
+    nt = exp is None or (n >= 3 and (spec['back'] or kind in ('compound', 'td_intraday', 'td_subsecond', 'hns') or (isinstance(spec['bump'], int) and abs(spec['bump']) > 1) or kind in ('b', 'month')))
     return dict(nt=bool(nt), cls=cls)
 
 
